@@ -91,6 +91,9 @@ def corpus(rng, n):
                 f = lines[0].split('|')
                 if len(f) > 11:
                     f[8] = rng.choice(['ADT^A08', 'ADT^A01^ADT_A99', '', 'XXX', 'ADT^A01^'])
+                    if rng.random() < .35 and len(f) > 11:
+                        # an MSH-12 that names no supported version: refused whatever the default version is (seed C17-j fell back to the default)
+                        f[11] = rng.choice(['2.9', '3.0', 'V2.5', '2.5.2', '2.5 draft', '^ITA'])
                     extra = 'PID|1||7|||||' + '|' * rng.randrange(20, 32) + 'X'
                     out.append(('msg', ('\r'.join(['|'.join(f)] + lines[1:] + [extra]), False, rng.random() < .5)))
         elif k == 2:
